@@ -410,27 +410,31 @@ func unmarshalCollection(s string) (orb.Collection, error) {
 // splitGeometryCollection split GEOMETRYCOLLECTION to more geometry
 func splitGeometryCollection(s string) (r []string) {
 	r = make([]string, 0)
-	stack := make([]rune, 0)
-	l := len(s)
-	for i, v := range s {
-		if !strings.Contains(string(stack), "(") {
-			stack = append(stack, v)
-			continue
-		}
-		if ('A' <= v && v < 'Z') || ('a' <= v && v < 'z') {
-			t := string(stack)
-			r = append(r, t[:len(t)-1])
-			stack = make([]rune, 0)
-			stack = append(stack, v)
-			continue
-		}
-		if i == l-1 {
-			r = append(r, string(stack))
-			continue
-		}
-		stack = append(stack, v)
+
+	// the members are listed between the outer brackets,
+	// split them on the commas that are not inside a member.
+	s = trimSpace(s)
+	if len(s) < 2 || s[0] != '(' || s[len(s)-1] != ')' {
+		return append(r, s)
 	}
-	return
+	s = s[1 : len(s)-1]
+
+	depth, start := 0, 0
+	for i := 0; i < len(s); i++ {
+		switch s[i] {
+		case '(':
+			depth++
+		case ')':
+			depth--
+		case ',':
+			if depth == 0 {
+				r = append(r, trimSpace(s[start:i]))
+				start = i + 1
+			}
+		}
+	}
+
+	return append(r, trimSpace(s[start:]))
 }
 
 // Unmarshal return a geometry by parsing the WKT string.
